@@ -8,7 +8,7 @@
    - [along (ev_adm ...)]: admissibility of NodeInv.v, only for C02 and C15. *)
 From Coq Require Import List NArith.
 From HS Require Import GTac Node Corr Monitors Proto Link NodeInv NodeLog NodePanic MonSound MonSoundDefs
-  MonSound2 MonSound3 MonSound4 MonSound5 MonSound6 MonSound7 MonSound8 MonSound9 MonSound10 MonSound11 MonitorsC19 MonSound12.
+  MonSound2 MonSound3 MonSound4 MonSound5 MonSound6 MonSound7 MonSound8 MonSound9 MonSound10 MonSound11 MonitorsC19 MonSound12 MonitorsC06 MonSound13.
 Import ListNotations.
 Open Scope N_scope.
 
@@ -152,3 +152,14 @@ Check c19t_hyps_met :
   c19_tc_complete_fired c4 evs_c19t (obs_of_run c4 1 evs_c19t) = 1 /\
   mon_c19_tc_complete c4 evs_c19t (obs_of_run c4 1 evs_c19t) = true.
 Print Assumptions c19t_hyps_met.
+
+(* C06: every request to make a block (Core -> Proposer) is served by the block in the same step. No hypothesis. *)
+Check mon_c06_proposes_sound : forall (c : Committee) (me : N) (evs : list (list N * Event)),
+  mon_c06_proposes (obs_of_run c me evs) = true.
+Print Assumptions mon_c06_proposes_sound.
+Check step_c06_ok : forall (c : Committee) (me : N) (dq : DqCfg) (hint : list N) (e : Event) (s : State),
+  c06_step_ok (snd (fst (step c me dq hint e s))) = true.
+Print Assumptions step_c06_ok.
+Check c06_proposes_detects_wedged :
+  mon_c06_proposes [mkObs [] KOk (1, 1, 0, 0); mkObs [] KOk (1, 1, 0, 0); ob_c06_wedged] = false.
+Print Assumptions c06_proposes_detects_wedged.
